@@ -168,3 +168,20 @@ def _search(self, string, pos=0, endpos=None):
 
 
 _core._PATCH_REGISTRATIONS[re.Pattern.search] = _search
+
+
+# --- 6. no opportunistic short-circuiting.  CrossHair may *skip the body* of any callee that has
+# a contract (including its own `hash` wrapper) and substitute a fresh symbolic return value, with
+# some probability per call.  For checks that claim to execute the real code this is unwanted, and
+# for `hash` it produced "proxy intolerance" aborts (a symbolic int returned from __hash__).  Only
+# functions explicitly registered as skip-body (nondeterministic stubs such as time.time) keep it.
+_orig_consider = _core.consider_shortcircuit
+
+
+def _consider_shortcircuit(fn, sig, bound, subconditions, allow_interpretation):
+    if allow_interpretation:
+        return None
+    return _orig_consider(fn, sig, bound, subconditions, allow_interpretation)
+
+
+_core.consider_shortcircuit = _consider_shortcircuit
